@@ -47,6 +47,27 @@ ERR_T = "List (Nat × Outcome)"
 
 
 # ----------------------------------------------------------------------------- values
+class _SetDiffComp(ast.NodeTransformer):
+    """`{x for x in A if x not in B}` (one generator, one `not in` filter on the element itself, element = the loop variable)
+    is the set difference `A - B` when `A` is a set — here `A` is always `self._tasks`, a `set[asyncio.Task]`."""
+    def visit_SetComp(self, n):              # noqa: N802
+        self.generic_visit(n)
+        if len(n.generators) == 1:
+            g = n.generators[0]
+            if (isinstance(g.target, ast.Name) and isinstance(n.elt, ast.Name) and n.elt.id == g.target.id and not g.is_async
+                    and len(g.ifs) == 1 and isinstance(g.ifs[0], ast.Compare) and len(g.ifs[0].ops) == 1
+                    and isinstance(g.ifs[0].ops[0], ast.NotIn) and isinstance(g.ifs[0].left, ast.Name)
+                    and g.ifs[0].left.id == g.target.id and ast.unparse(g.iter) == "self._tasks"
+                    and g.target.id not in {x.id for x in ast.walk(g.ifs[0].comparators[0]) if isinstance(x, ast.Name)}):
+                return ast.copy_location(ast.BinOp(left=g.iter, op=ast.Sub(), right=g.ifs[0].comparators[0]), n)
+        return n
+
+
+def _parse(src: str) -> ast.Module:
+    return ast.fix_missing_locations(_SetDiffComp().visit(ast.parse(src)))
+
+
+
 @dataclass(frozen=True)
 class V:
     k: str                    # const | nat | bool | limit | opaque | self | tasks | idset | emptyset | task | err | errlist
@@ -1352,9 +1373,9 @@ def _word_in(word: str, text: str) -> bool:
 
 def generate(repo: pathlib.Path) -> str:
     AX._check_hierarchy()
-    t_actor = ast.parse((repo / SOURCES[0]).read_text())
-    t_svc = ast.parse((repo / SOURCES[1]).read_text())
-    t_aio = ast.parse((repo / SOURCES[2]).read_text())
+    t_actor = _parse((repo / SOURCES[0]).read_text())
+    t_svc = _parse((repo / SOURCES[1]).read_text())
+    t_aio = _parse((repo / SOURCES[2]).read_text())
     actor, svc = _cls(t_actor, "Actor"), _cls(t_svc, "BackgroundService")
     chain = [(actor, t_actor), (svc, t_svc)]
     parts: list[str] = []
@@ -1387,7 +1408,7 @@ def generate(repo: pathlib.Path) -> str:
     section("`_internal._asyncio.cancel_and_await`", tr)
 
     # run(*actors): what it does to EACH actor before it starts waiting (the body of its loop over `actors`)
-    t_run = ast.parse((repo / SOURCES[3]).read_text())
+    t_run = _parse((repo / SOURCES[3]).read_text())
     tr = Tr(chain)
     fn = tr.modfn(t_run, "run")
     if fn is None or fn.args.vararg is None or fn.args.args or fn.args.kwonlyargs:
